@@ -60,6 +60,12 @@ class Tup:
 
 
 @dataclass(frozen=True)
+class Costs:
+    """the list of the costs of `src`'s agents, in src order"""
+    src: str
+
+
+@dataclass(frozen=True)
 class Scalar:
     text: str       # normalised expression over parameters
 
@@ -218,6 +224,13 @@ class Evaluator:
             return self.const(e)
         if isinstance(e, ast.IfExp):
             return self.expr(fi, e.body if self.test(fi, e.test, env) else e.orelse, env)
+        if isinstance(e, (ast.ListComp, ast.GeneratorExp)) and len(e.generators) == 1 and not e.generators[0].ifs \
+                and isinstance(e.elt, ast.Attribute) and e.elt.attr == "cost" and isinstance(e.generators[0].target, ast.Name) \
+                and isinstance(e.elt.value, ast.Name) and e.elt.value.id == e.generators[0].target.id:
+            src = self.expr(fi, e.generators[0].iter, env)
+            if isinstance(src, L) and src.window == ("ALL",) and src.order == "ORIG":
+                return Costs(src.src)
+            raise OrdDeviation(f"{fi.name}: costs are taken from `{norm(e.generators[0].iter, 40)}`, not from the whole population in order")
         if isinstance(e, ast.Subscript):
             base = self.expr(fi, e.value, env)
             return self.subscript(fi, base, e.slice, env)
@@ -305,6 +318,8 @@ class Evaluator:
             d = dotted(f)
             if d in ("np.argsort", "numpy.argsort") and c.args:
                 a0 = c.args[0]
+                if isinstance(a0, ast.Name) and isinstance(env.get(a0.id), Costs):
+                    return L(env[a0.id].src, "idx", "ASC", ("ALL",), True)
                 # [agent.cost for agent in population]
                 if isinstance(a0, ast.ListComp) and len(a0.generators) == 1 and not a0.generators[0].ifs \
                         and isinstance(a0.elt, ast.Attribute) and a0.elt.attr == "cost" \
